@@ -181,6 +181,40 @@ def pending_window_scenario(sid, a, b, rng):
     return {"id": sid, "role": "", "steps": steps}
 
 
+def command_table():
+    """name -> arity of spec/Commands.tla (the supported commands)."""
+    import re
+    spec = open(os.path.join(common.SPEC, "Commands.tla")).read()
+    return dict(re.findall(r'^\s*"([a-z]+)" :> \[arity \|-> "(\w+)"', spec, re.M))
+
+
+def allcommands_scenario(sid, rng, desc=None, upper=False):
+    """One request of every supported command (with the least number of arguments its arity rule allows), keys spread over
+    all masters' ranges: writes, scans and scripts must arrive at the master that owns the slot, reads at the master or
+    one of its replicas (TopoTrace decides by Commands!Table)."""
+    desc = desc or default_desc()
+    steps = [step([st(op="topo", desc=desc, kind=""), st(op="refresh")])]
+    reqs = []
+    for name, ar in sorted(command_table().items()):
+        if name in ("auth", "ping", "quit", "mset"):     # (MSET's pairing of keys and values is C06's business)
+            continue
+        extra = {"z": 0, "k0": 0, "k1": 1, "k2": 2, "k3": 3, "inf": 1, "even": 1}.get(ar, 1)
+        nm = name.upper() if upper else name
+        if name in ("eval", "evalsha"):
+            args = [nm, "return 1", "1", "@0"]
+        elif name == "mset":
+            args = [nm, "@0", "v"]
+        else:
+            args = [nm, "@0"] + ["a%d" % x for x in range(extra)]
+        slot = rng.randrange(16384)
+        reqs.append({"k": "cmd", "slots": ["#%d" % slot], "args": args, "dups": [-1]})
+    rng.shuffle(reqs)
+    for i in range(0, len(reqs), 12):
+        steps.append(step([st(op="send", c="c1", reqs=reqs[i:i + 12])]))
+        steps += drain(2, 20)
+    return {"id": sid, "role": "", "steps": steps}
+
+
 def removal_scenario(sid):
     """A request in flight on a silent node while the topology stops listing that node (C15)."""
     cat = {c[0]: c for c in catalogue()}
@@ -410,6 +444,9 @@ def run_generic(pid, tier, seed):
                 generated.update(rinfo)
                 groups.append((dict(CFG), rscs, "race", {}))
             if pid == "C04":
+                # every supported command once: routed by role according to the command table
+                for k in range(2 if q else 12):
+                    scs.insert(k, allcommands_scenario("allcommands-%d" % k, rng, upper=bool(k % 2)))
                 sub = scs[:len(cat)] if q else scs
                 groups.append((dict(CFG, disableSlave=True), sub[:12 if q else 60], "topo-noslave", {"DisableSlave": "TRUE"}))
                 groups.append((dict(CFG, password="pw"), sub[:12 if q else 60], "topo-pw", {"HasPassword": "TRUE"}))
